@@ -256,29 +256,50 @@ mod k {
         std::mem::forget(r);
     }
 
-    /// VERIF: {"p":"C05","tier":"quick","fns":["radv::icmppkt::parse","radv::icmppkt::parse_nd_rtr_options"],"bounds":"router solicitation or advertisement + TWO consecutive options with (type,length octet) pairs drawn from well-formed and malformed combinations of types {1,3,5,25,38,2}: both fitting, second one octet short, second with length 0, second overrunning by 1..7 octets (trailing garbage after a valid option); payloads symbolic","oracle":"Ok or Err, no panic; option loop terminates; zero-length/overrunning second option rejected","covers":2,"unwind":20}
+    /// VERIF: {"p":"C05","tier":"quick","fns":["radv::icmppkt::parse","radv::icmppkt::parse_nd_rtr_solicit","radv::icmppkt::parse_nd_rtr_options"],"bounds":"router solicitation + TWO consecutive well-formed options, (type,length octet) pairs (1,1)+(1,1), (1,1)+(38,2), (38,2)+(5,1), (3,4)+(1,1), (25,3)+(25,3), exactly fitting; payloads symbolic","oracle":"Ok or Err, no panic; option loop terminates","covers":1,"unwind":20}
     #[kani::proof]
     #[kani::unwind(20)]
-    fn c05_icmp_two_options() {
+    fn c05_icmp_rs_two_options_fitting() {
         let mut acc = (0u32, 0u32);
         match kani::any::<u8>() {
             0 => two_opts::<24>(RS, 8, 1, 1, 1, 1, &mut acc),
-            1 => two_opts::<23>(RS, 8, 1, 1, 5, 1, &mut acc),
-            2 => two_opts::<32>(RS, 8, 1, 1, 38, 2, &mut acc),
-            3 => two_opts::<32>(RS, 8, 38, 2, 5, 1, &mut acc),
-            4 => two_opts::<48>(RS, 8, 3, 4, 1, 1, &mut acc),
-            5 => two_opts::<47>(RS, 8, 1, 1, 3, 4, &mut acc),
-            6 => two_opts::<56>(RS, 8, 25, 3, 25, 3, &mut acc),
-            7 => two_opts::<24>(RS, 8, 1, 1, 1, 0, &mut acc),
-            8 => two_opts::<32>(RS, 8, 2, 2, 5, 0, &mut acc),
-            9 => two_opts::<23>(RS, 8, 1, 1, 2, 1, &mut acc),
-            10 => two_opts::<17>(RS, 8, 1, 1, 2, 1, &mut acc),
-            11 => two_opts::<18>(RS, 8, 5, 1, 25, 255, &mut acc),
-            12 => two_opts::<32>(RA, 16, 5, 1, 1, 1, &mut acc),
-            13 => two_opts::<56>(RA, 16, 5, 1, 3, 4, &mut acc),
-            14 => two_opts::<55>(RA, 16, 3, 4, 5, 1, &mut acc),
-            15 => two_opts::<48>(RA, 16, 25, 3, 5, 1, &mut acc),
-            16 => two_opts::<31>(RA, 16, 1, 1, 25, 1, &mut acc),
+            1 => two_opts::<32>(RS, 8, 1, 1, 38, 2, &mut acc),
+            2 => two_opts::<32>(RS, 8, 38, 2, 5, 1, &mut acc),
+            3 => two_opts::<48>(RS, 8, 3, 4, 1, 1, &mut acc),
+            _ => two_opts::<56>(RS, 8, 25, 3, 25, 3, &mut acc),
+        }
+        kani::cover!(acc.0 > 0, "accepted");
+    }
+
+    /// VERIF: {"p":"C05","tier":"quick","fns":["radv::icmppkt::parse","radv::icmppkt::parse_nd_rtr_solicit","radv::icmppkt::parse_nd_rtr_options"],"bounds":"router solicitation + a well-formed option followed by a malformed one: second option one octet short ((1,1)+(5,1) in 23, (1,1)+(3,4) in 47), second option length 0 ((1,1)+(1,0), (2,2)+(5,0)), trailing garbage of 7 and of 1 octet after a valid option ((1,1)+(2,1) in 23 and 17), second option declaring 255 units in an 18-octet message; payloads symbolic","oracle":"always Err (zero-length/overrunning second option rejected), never a panic","covers":1,"unwind":20}
+    #[kani::proof]
+    #[kani::unwind(20)]
+    fn c05_icmp_rs_two_options_malformed() {
+        let mut acc = (0u32, 0u32);
+        match kani::any::<u8>() {
+            0 => two_opts::<23>(RS, 8, 1, 1, 5, 1, &mut acc),
+            1 => two_opts::<47>(RS, 8, 1, 1, 3, 4, &mut acc),
+            2 => two_opts::<24>(RS, 8, 1, 1, 1, 0, &mut acc),
+            3 => two_opts::<32>(RS, 8, 2, 2, 5, 0, &mut acc),
+            4 => two_opts::<23>(RS, 8, 1, 1, 2, 1, &mut acc),
+            5 => two_opts::<17>(RS, 8, 1, 1, 2, 1, &mut acc),
+            _ => two_opts::<18>(RS, 8, 5, 1, 25, 255, &mut acc),
+        }
+        assert!(acc.0 == 0, "malformed second option never accepted");
+        kani::cover!(acc.1 > 0, "rejected");
+    }
+
+    /// VERIF: {"p":"C05","tier":"quick","fns":["radv::icmppkt::parse","radv::icmppkt::parse_nd_rtr_advert","radv::icmppkt::parse_nd_rtr_options"],"bounds":"router advertisement + TWO consecutive options: (5,1)+(1,1), (5,1)+(3,4), (25,3)+(5,1) fitting; (3,4)+(5,1) one octet short, (1,1)+(25,1) with 7 octets only, (1,1)+(3,0); payloads and RA header symbolic","oracle":"Ok or Err, no panic; zero-length/overrunning second option rejected","covers":2,"unwind":20}
+    #[kani::proof]
+    #[kani::unwind(20)]
+    fn c05_icmp_ra_two_options() {
+        let mut acc = (0u32, 0u32);
+        match kani::any::<u8>() {
+            0 => two_opts::<32>(RA, 16, 5, 1, 1, 1, &mut acc),
+            1 => two_opts::<56>(RA, 16, 5, 1, 3, 4, &mut acc),
+            2 => two_opts::<55>(RA, 16, 3, 4, 5, 1, &mut acc),
+            3 => two_opts::<48>(RA, 16, 25, 3, 5, 1, &mut acc),
+            4 => two_opts::<31>(RA, 16, 1, 1, 25, 1, &mut acc),
             _ => two_opts::<32>(RA, 16, 1, 1, 3, 0, &mut acc),
         }
         kani::cover!(acc.0 > 0, "accepted");
@@ -424,61 +445,48 @@ mod k {
         ok
     }
 
-    // last kept octet: '/' (ASCII), 0xff (never valid UTF-8), 0xc3 (truncated 2-octet sequence), 0x80 (stray
-    // continuation), 0xe2 (truncated 3-octet sequence)
-    const LAST: [u8; 5] = [b'/', 0xff, 0xc3, 0x80, 0xe2];
-
-    /// VERIF: {"p":"C05","tier":"quick","fns":["radv::icmppkt::parse","radv::icmppkt::parse_nd_rtr_options (CAPTIVE_PORTAL arm)","alloc::string::String::from_utf8"],"bounds":"RS or RA + one captive-portal option (type 37) with length octet 1 (6 payload octets): kept-length P in {0,1,2,5,6} (octets from P on are NUL padding, octet P-1 pinned to each of '/',0xff,0xc3,0x80,0xe2), the P-1 octets before it symbolic (any bytes, valid or invalid UTF-8)","oracle":"Ok with a URL of exactly P octets, or Err(InvalidEncoding); never a panic or out-of-bounds slice","covers":2,"unwind":20}
+    /// VERIF: {"p":"C05","tier":"quick","fns":["radv::icmppkt::parse","radv::icmppkt::parse_nd_rtr_options (CAPTIVE_PORTAL arm)","alloc::string::String::from_utf8"],"bounds":"RS + one captive-portal option (type 37), length octet 1 (6 payload octets): kept length P=6 with the last octet pinned to '/' and P=5 with the last kept octet pinned to 0xc3 (a truncated 2-octet UTF-8 sequence) followed by NUL; the P-1 octets before it symbolic (any byte values, valid or invalid UTF-8)","oracle":"Ok with a URL of exactly P octets, or Err(InvalidEncoding); never a panic or out-of-bounds slice","covers":2,"unwind":20}
     #[kani::proof]
     #[kani::unwind(20)]
-    fn c05_icmp_captive_portal_len1() {
-        let sel: u8 = kani::any();
-        let mut ok = false;
-        let mut j = 0;
-        while j < LAST.len() {
-            let last = LAST[j];
-            if sel as usize / 8 == j {
-                ok = match sel % 8 {
-                    0 => portal::<16>(RS, 8, 1, 0, last),
-                    1 => portal::<16>(RS, 8, 1, 1, last),
-                    2 => portal::<16>(RS, 8, 1, 2, last),
-                    3 => portal::<16>(RS, 8, 1, 5, last),
-                    4 => portal::<16>(RS, 8, 1, 6, last),
-                    5 => portal::<24>(RA, 16, 1, 0, last),
-                    _ => portal::<24>(RA, 16, 1, 6, last),
-                };
-            }
-            j += 1;
-        }
-        kani::assume(sel < 40);
+    fn c05_icmp_captive_portal_text() {
+        let ok = if kani::any() { portal::<16>(RS, 8, 1, 6, b'/') } else { portal::<16>(RS, 8, 1, 5, 0xc3) };
         kani::cover!(ok, "url decoded");
         kani::cover!(!ok, "rejected (invalid UTF-8)");
     }
 
-    /// VERIF: {"p":"C05","tier":"quick","fns":["radv::icmppkt::parse","radv::icmppkt::parse_nd_rtr_options (CAPTIVE_PORTAL arm)","alloc::string::String::from_utf8"],"bounds":"RS + one captive-portal option with length octet 2 (14 payload octets), kept-length P in {0,7,13,14}, last kept octet pinned to each of '/',0xff,0xc3,0x80,0xe2, the octets before it symbolic; plus the option one octet short and with length octet 3 overrunning the message","oracle":"Ok with a URL of exactly P octets, or Err; never a panic","covers":2,"unwind":36}
+    /// VERIF: {"p":"C05","tier":"quick","fns":["radv::icmppkt::parse","radv::icmppkt::parse_nd_rtr_options (CAPTIVE_PORTAL arm)","alloc::string::String::from_utf8"],"bounds":"RS or RA + one captive-portal option, length octet 1: kept length P=2 with last octet 0xff (never valid UTF-8) after one symbolic octet (RS), P=1 with the single octet 0x80 (stray continuation) (RA)","oracle":"Err(InvalidEncoding); never a panic","covers":1,"unwind":20}
+    #[kani::proof]
+    #[kani::unwind(20)]
+    fn c05_icmp_captive_portal_invalid_utf8() {
+        let ok = if kani::any() { portal::<16>(RS, 8, 1, 2, 0xff) } else { portal::<24>(RA, 16, 1, 1, 0x80) };
+        assert!(!ok, "invalid UTF-8 is reported as an error");
+        kani::cover!(!ok, "rejected (invalid UTF-8)");
+    }
+
+    /// VERIF: {"p":"C05","tier":"quick","fns":["radv::icmppkt::parse","radv::icmppkt::parse_nd_rtr_options (CAPTIVE_PORTAL arm)"],"bounds":"captive-portal option (type 37) whose payload is all NUL (empty URL; rposition finds nothing) with length octet 1 (RS, RA) and 2 (RS), the option one octet short (RS, 15 and 23 octets), length octet 3 overrunning a 24-octet message, length octet 255 in a 48-octet message","oracle":"all-NUL payload decodes to the empty URL, truncated/overrunning options are errors; never a panic (unwrap_or(0) slice)","covers":2,"unwind":20}
+    #[kani::proof]
+    #[kani::unwind(20)]
+    fn c05_icmp_captive_portal_empty_and_truncated() {
+        let ok = match kani::any::<u8>() {
+            0 => portal::<16>(RS, 8, 1, 0, 0),
+            1 => portal::<24>(RA, 16, 1, 0, 0),
+            2 => portal::<24>(RS, 8, 2, 0, 0),
+            3 => portal::<15>(RS, 8, 1, 0, 0),
+            4 => portal::<23>(RS, 8, 2, 0, 0),
+            5 => portal::<24>(RS, 8, 3, 0, 0),
+            _ => portal::<48>(RS, 8, 255, 0, 0),
+        };
+        kani::cover!(ok, "empty url decoded");
+        kani::cover!(!ok, "rejected (truncated)");
+    }
+
+    /// VERIF: {"p":"C05","tier":"thorough","fns":["radv::icmppkt::parse","radv::icmppkt::parse_nd_rtr_options (CAPTIVE_PORTAL arm)","alloc::string::String::from_utf8"],"bounds":"RS + one captive-portal option with length octet 2 (14 payload octets), kept length P=14, last octet pinned to '/', the 13 octets before it symbolic","oracle":"Ok with a URL of exactly 14 octets, or Err(InvalidEncoding); never a panic","covers":2,"unwind":36}
     #[kani::proof]
     #[kani::unwind(36)]
     fn c05_icmp_captive_portal_len2() {
-        let sel: u8 = kani::any();
-        let mut ok = false;
-        let mut j = 0;
-        while j < LAST.len() {
-            let last = LAST[j];
-            if sel as usize / 8 == j {
-                ok = match sel % 8 {
-                    0 => portal::<24>(RS, 8, 2, 0, last),
-                    1 => portal::<24>(RS, 8, 2, 7, last),
-                    2 => portal::<24>(RS, 8, 2, 13, last),
-                    3 => portal::<24>(RS, 8, 2, 14, last),
-                    4 => portal::<23>(RS, 8, 2, 14, last),
-                    _ => portal::<24>(RS, 8, 3, 14, last),
-                };
-            }
-            j += 1;
-        }
-        kani::assume(sel < 40);
+        let ok = portal::<24>(RS, 8, 2, 14, b'/');
         kani::cover!(ok, "url decoded");
-        kani::cover!(!ok, "rejected (invalid UTF-8 or truncated)");
+        kani::cover!(!ok, "rejected (invalid UTF-8)");
     }
 
     // Largest option length octet (255 -> 2040 octets) - exact fit, so the option is really decoded.
@@ -500,20 +508,25 @@ mod k {
         ok
     }
 
-    /// VERIF: {"p":"C05","tier":"quick","fns":["radv::icmppkt::parse","radv::icmppkt::parse_nd_rtr_options"],"bounds":"RS + one option with the maximum length octet 255 (2040 octets): type in {1 source-lladdr, 3 prefix, 5 MTU, 38 PREF64, 200 unknown} in an exactly fitting 2048-octet message, and types {1,25,37} in a message one octet short (2047); payload symbolic","oracle":"Ok or Err, no panic; wrong-size prefix/MTU/PREF64 options are errors not crashes","covers":2,"unwind":20}
+    /// VERIF: {"p":"C05","tier":"quick","fns":["radv::icmppkt::parse","radv::icmppkt::parse_nd_rtr_options"],"bounds":"RS and RA + one option with the maximum length octet 255 (declares 2040 octets) in a 48-octet message, option type each of {1,3,5,25,31,38,2}; payload symbolic","oracle":"Err (overrunning option rejected before any copy); no overflow in l * 8 - 2","covers":1,"unwind":20}
+    #[kani::proof]
+    #[kani::unwind(20)]
+    fn c05_icmp_option_len255_overrun() {
+        let mut acc = (0u32, 0u32);
+        if kani::any() {
+            one_opt::<48>(RS, 8, 255, &mut acc);
+        } else {
+            one_opt::<48>(RA, 16, 255, &mut acc);
+        }
+        assert!(acc.0 == 0, "never accepted");
+        kani::cover!(acc.1 > 0, "rejected");
+    }
+
+    /// VERIF: {"p":"C05","tier":"thorough","fns":["radv::icmppkt::parse","radv::icmppkt::parse_nd_rtr_options"],"bounds":"RS + one option with the maximum length octet 255 (2040 octets) in an exactly fitting 2048-octet message: type 1 (source-lladdr: 2038-octet copy) or 3 (prefix: wrong size); payload symbolic","oracle":"Ok or Err, no panic; wrong-size prefix option is an error not a crash","covers":2,"unwind":20}
     #[kani::proof]
     #[kani::unwind(20)]
     fn c05_icmp_option_len255() {
-        let ok = match kani::any::<u8>() {
-            0 => big::<2048>(RS, 8, 1),
-            1 => big::<2048>(RS, 8, 3),
-            2 => big::<2048>(RS, 8, 5),
-            3 => big::<2048>(RS, 8, 38),
-            4 => big::<2048>(RS, 8, 200),
-            5 => big::<2047>(RS, 8, 1),
-            6 => big::<2047>(RS, 8, 25),
-            _ => big::<2047>(RS, 8, 37),
-        };
+        let ok = if kani::any() { big::<2048>(RS, 8, 1) } else { big::<2048>(RS, 8, 3) };
         kani::cover!(ok, "accepted");
         kani::cover!(!ok, "rejected");
     }
@@ -536,34 +549,4 @@ mod k {
         }
         std::mem::forget(r);
     }
-
-    // TMPEXP-BEGIN
-    /// VERIF: {"p":"C05","tier":"quick","fns":[],"bounds":"tmp","oracle":"tmp","covers":0,"unwind":20}
-    #[kani::proof]
-    #[kani::unwind(20)]
-    fn c05_icmp_tmp_portal_a() {
-        portal::<16>(RS, 8, 1, 6, b'/');
-    }
-
-    /// VERIF: {"p":"C05","tier":"quick","fns":[],"bounds":"tmp","oracle":"tmp","covers":0,"unwind":20}
-    #[kani::proof]
-    #[kani::unwind(20)]
-    fn c05_icmp_tmp_portal_b() {
-        portal::<16>(RS, 8, 1, 2, 0xff);
-    }
-
-    /// VERIF: {"p":"C05","tier":"quick","fns":[],"bounds":"tmp","oracle":"tmp","covers":0,"unwind":20}
-    #[kani::proof]
-    #[kani::unwind(20)]
-    fn c05_icmp_tmp_portal_c() {
-        portal::<16>(RS, 8, 1, 0, 0xff);
-    }
-
-    /// VERIF: {"p":"C05","tier":"quick","fns":[],"bounds":"tmp","oracle":"tmp","covers":0,"unwind":20}
-    #[kani::proof]
-    #[kani::unwind(20)]
-    fn c05_icmp_tmp_big() {
-        big::<2048>(RS, 8, 1);
-    }
-    // TMPEXP-END
 }
